@@ -103,13 +103,21 @@ class PandasIndexFeaturesMixin:
             **{k: 'nearest' for k in as_list(nearest_)},
         }  # fmt: skip
 
-        # Use the base class version of `reindex()` to alter the `span`...
-        reindexed = super().reindex(span=span)
+        # Use the base class version of `reindex()` to alter the `span` and
+        # set the (dtype-appropriate) fill values...
+        reindexed = super().reindex(
+            span=span, fill_value=fill_value, strict=strict, **fill_values
+        )
 
         # ...then adjust the values using the `pandas` `Series.reindex()`
-        # method
+        # method, for those variables with a fill method
         for name in reindexed.names:
             fill_method = methods.get(name, method)
+
+            # No fill method: Keep the base class result (`Series.reindex()`
+            # would fill `int`, `bool` and `str` variables by casting NaN)
+            if fill_method is None:
+                continue
 
             fill_limit = None
             fill_tolerance = None
